@@ -254,11 +254,11 @@ def main_check(modname, tier, replay=None, seed=None, cases=None, selftest=False
 
     blk = Block(mod, seed, cfg)
     nblocks = (cfg["cases"] + cfg["block"] - 1) // cfg["block"]
-    block_timeout = cfg["case_timeout"] * 3 + cfg["block"] * cfg.get("per_case_budget", 0.2)
+    block_timeout = cfg["case_timeout"] * 2 + cfg["block"] * cfg.get("per_case_budget", 0.1)
     deadline = cfg.get("wall_budget")
     jobs = int(os.environ.get("VERIF_JOBS", "0")) or min(16, os.cpu_count() or 1)
 
-    outcomes = runner.run_indexed(blk.run_block, nblocks, jobs=jobs, case_timeout=block_timeout)
+    outcomes = runner.run_indexed(blk.run_block, nblocks, jobs=jobs, case_timeout=block_timeout, confirm=False)
 
     stats = {}
     sigs = set()
@@ -293,8 +293,10 @@ def main_check(modname, tier, replay=None, seed=None, cases=None, selftest=False
             start = o.index * cfg["block"]
             end = min(cfg["cases"], start + cfg["block"])
             located = False
-            for idx in range(start, end):
-                oo = runner.run_isolated(blk.run_single, idx, timeout=cfg["case_timeout"] * 10)
+            sub = runner.run_indexed(blk.run_single, cfg["cases"], jobs=jobs, case_timeout=cfg["case_timeout"],
+                                     indices=list(range(start, end)))
+            for oo in sub:
+                idx = oo.index
                 evaluations += 1
                 if oo.status in ("crash", "hang"):
                     case = blk.case_for(idx)
@@ -307,6 +309,11 @@ def main_check(modname, tier, replay=None, seed=None, cases=None, selftest=False
                     res = oo.value["res"]
                     for k, v in res.get("stats", {}).items():
                         stats[k] = stats.get(k, 0) + v
+                    if res.get("nontrivial"):
+                        nontrivial += 1
+                        if res.get("sig") is not None:
+                            sigs.add(h64(res["sig"]))
+                    sim_time += res.get("sim_time", 0.0)
                     for v in res.get("violations", []):
                         raw_viol.append({"index": idx, "case": oo.value["case"], "violation": v})
                 else:
